@@ -14,7 +14,7 @@ use std::io::Write;
 #[derive(Clone, Debug)]
 enum DVal { Num(f64), Str(String), List(Vec<DVal>), Tuple(Vec<DVal>), Node(String, Vec<(String, String, Option<f64>)>), Graph(Vec<(String, Vec<(String, String, Option<f64>)>)>) }
 #[derive(Clone, Debug)]
-enum IEx { Num(f64), Var(String), Bin(char, Box<IEx>, Box<IEx>), At(Box<IEx>, Box<IEx>), Len(Box<IEx>), Range(Box<IEx>, Box<IEx>, bool), Enumerate(Box<IEx>), Nodes(Box<IEx>), Edges(Box<IEx>), NeighEdges(Box<IEx>) }
+enum IEx { Num(f64), Var(String), Bin(char, Box<IEx>, Box<IEx>), At(Box<IEx>, Box<IEx>), Len(Box<IEx>), Range(Box<IEx>, Box<IEx>, bool), Enumerate(Box<IEx>), Nodes(Box<IEx>), Edges(Box<IEx>), NeighEdges(Box<IEx>), SetFn(u8, Box<IEx>, Box<IEx>) }
 #[derive(Clone, Debug)]
 enum Pat { Single(String), Tuple(Vec<String>) }
 #[derive(Clone, Copy, Debug, PartialEq)]
@@ -57,6 +57,13 @@ fn ieval(env: &Env, e: &IEx) -> Option<DVal> {
         IEx::Nodes(g) => match ieval(env, g)? { DVal::Graph(ns) => DVal::List(ns.into_iter().map(|(n, es)| DVal::Node(n, es)).collect()), _ => return None },
         IEx::Edges(g) => match ieval(env, g)? { DVal::Graph(ns) => DVal::List(ns.iter().flat_map(|(_, es)| es.iter().map(edge_val)).collect()), _ => return None },
         IEx::NeighEdges(x) => match ieval(env, x)? { DVal::Node(_, es) => DVal::List(es.iter().map(edge_val).collect()), _ => return None },
+        // union: first occurrence of every value of a ++ b; intersection / difference: a filtered by membership in b
+        IEx::SetFn(k, a, c) => match (ieval(env, a)?, ieval(env, c)?) { (DVal::List(la), DVal::List(lc)) => {
+            let num = |d: &DVal| match d { DVal::Num(x) => Some(*x), _ => None };
+            let (na, nc): (Vec<f64>, Vec<f64>) = (la.iter().map(num).collect::<Option<Vec<_>>>()?, lc.iter().map(num).collect::<Option<Vec<_>>>()?);
+            let out: Vec<f64> = match k { 0 => { let mut o: Vec<f64> = Vec::new(); for x in na.iter().chain(nc.iter()) { if !o.contains(x) { o.push(*x); } } o }
+                1 => na.iter().filter(|x| nc.contains(x)).cloned().collect(), _ => na.iter().filter(|x| !nc.contains(x)).cloned().collect() };
+            DVal::List(out.into_iter().map(DVal::Num).collect()) } _ => return None },
     })
 }
 fn bind_pat(env: &Env, p: &Pat, val: DVal) -> Option<Env> {
@@ -139,7 +146,7 @@ fn unrolled_text(p: &Prog) -> Option<String> {
 // ---------------------------------------------------------------- the data-driven source text
 fn itext(e: &IEx) -> String {
     match e { IEx::Num(x) => fnum(*x), IEx::Var(n) => n.clone(), IEx::Bin(op, a, c) => format!("({} {} {})", itext(a), op, itext(c)), IEx::At(a, i) => format!("{}[{}]", itext(a), itext(i)), IEx::Len(a) => format!("len({})", itext(a)),
-        IEx::Range(a, c, incl) => format!("{}{}{}", itext(a), if *incl { "..=" } else { ".." }, itext(c)), IEx::Enumerate(a) => format!("enumerate({})", itext(a)), IEx::Nodes(g) => format!("nodes({})", itext(g)), IEx::Edges(g) => format!("edges({})", itext(g)), IEx::NeighEdges(x) => format!("neigh_edges({})", itext(x)) }
+        IEx::Range(a, c, incl) => format!("{}{}{}", itext(a), if *incl { "..=" } else { ".." }, itext(c)), IEx::Enumerate(a) => format!("enumerate({})", itext(a)), IEx::Nodes(g) => format!("nodes({})", itext(g)), IEx::Edges(g) => format!("edges({})", itext(g)), IEx::NeighEdges(x) => format!("neigh_edges({})", itext(x)), IEx::SetFn(k, a, c) => format!("{}({}, {})", ["union", "intersection", "difference"][*k as usize], itext(a), itext(c)) }
 }
 fn ptext(p: &Pat) -> String { match p { Pat::Single(n) => n.clone(), Pat::Tuple(ns) => format!("({})", ns.join(", ")) } }
 fn btext(binds: &[(Pat, IEx)]) -> String { binds.iter().map(|(p, it)| format!("{} in {}", ptext(p), itext(it))).collect::<Vec<_>>().join(", ") }
@@ -178,7 +185,7 @@ fn dcoq(d: &DVal) -> String {
 }
 fn icoq(e: &IEx) -> String {
     match e { IEx::Num(x) => format!("(INum {})", cq::xq(*x)), IEx::Var(n) => format!("(IVar {})", cqs(n)), IEx::Bin(op, a, c) => format!("(IBin {} {} {})", match op { '+' => "Add", '-' => "Sub", _ => "Mul" }, icoq(a), icoq(c)), IEx::At(a, i) => format!("(IAt {} {})", icoq(a), icoq(i)), IEx::Len(a) => format!("(ILen {})", icoq(a)),
-        IEx::Range(a, c, incl) => format!("(IRange {} {} {})", icoq(a), icoq(c), incl), IEx::Enumerate(a) => format!("(IEnumerate {})", icoq(a)), IEx::Nodes(g) => format!("(INodes {})", icoq(g)), IEx::Edges(g) => format!("(IEdges {})", icoq(g)), IEx::NeighEdges(x) => format!("(INeighEdges {})", icoq(x)) }
+        IEx::Range(a, c, incl) => format!("(IRange {} {} {})", icoq(a), icoq(c), incl), IEx::Enumerate(a) => format!("(IEnumerate {})", icoq(a)), IEx::Nodes(g) => format!("(INodes {})", icoq(g)), IEx::Edges(g) => format!("(IEdges {})", icoq(g)), IEx::NeighEdges(x) => format!("(INeighEdges {})", icoq(x)), IEx::SetFn(k, a, c) => format!("(ISet {} {} {})", ["SUnion", "SInter", "SDiff"][*k as usize], icoq(a), icoq(c)) }
 }
 fn pcoq(p: &Pat) -> String { match p { Pat::Single(n) => format!("(PSingle {})", cqs(n)), Pat::Tuple(ns) => format!("(PTuple [{}])", ns.iter().map(|s| cqs(s)).collect::<Vec<_>>().join("; ")) } }
 fn bcoq(b: &[(Pat, IEx)]) -> String { format!("[{}]", b.iter().map(|(p, it)| format!("({}, {})", pcoq(p), icoq(it))).collect::<Vec<_>>().join("; ")) }
@@ -208,7 +215,9 @@ fn gen_prog(r: &mut Rng) -> Prog {
     let mut g: Vec<(String, Vec<(String, String, Option<f64>)>)> = Vec::new();
     for i in 0..nn { let mut es = Vec::new(); for j in 0..nn { if j != i && r.chance(1, 2) { let w = if r.chance(1, 2) { Some(r.range(1, 9) as f64) } else { None }; es.push((node_names[i].to_string(), node_names[j].to_string(), w)); } } g.push((node_names[i].to_string(), es)); }
     let n = r.range(0, 4) as f64;
-    let env: Env = vec![("n".into(), DVal::Num(n)), ("z".into(), DVal::Num(0.0)), ("A".into(), DVal::List(a)), ("B".into(), DVal::List(b)), ("M".into(), DVal::List(m)), ("G".into(), DVal::Graph(g))];
+    let cvals: Vec<DVal> = (0..r.below(5)).map(|_| DVal::Num(r.range(0, 9) as f64)).collect();
+    let t3: Vec<DVal> = (0..2).map(|_| DVal::List((0..2).map(|_| DVal::List((0..2 + r.below(2)).map(|_| DVal::Num(r.range(1, 9) as f64)).collect())).collect())).collect();
+    let env: Env = vec![("n".into(), DVal::Num(n)), ("z".into(), DVal::Num(0.0)), ("C".into(), DVal::List(cvals)), ("T".into(), DVal::List(t3)), ("A".into(), DVal::List(a)), ("B".into(), DVal::List(b)), ("M".into(), DVal::List(m)), ("G".into(), DVal::Graph(g))];
     // families: x_i (i in 0..=len(A)), q_i boolean same index set, y_i_j over M, w_u over nodes, e_u_v over edges, t scalar, k_i (i in 0..=n+1)
     let xs_range = range(num(0.0), len(v("A")), true);
     let decls = vec![
@@ -225,7 +234,14 @@ fn gen_prog(r: &mut Rng) -> Prog {
     ];
     let scoped = |r: &mut Rng| -> PExp {
         let kind_num = *r.pick(&[AK::Sum, AK::Sum, AK::Sum, AK::Max, AK::Min, AK::Avg]);
-        match r.below(15) {
+        match r.below(19) {
+            // set functions as iteration sources (values used as coefficients), and their length
+            15 => { let k = r.below(3) as u8; PExp::Scoped(AK::Sum, vec![(one("i"), IEx::SetFn(k, Box::new(v("A")), Box::new(v("C"))))], Box::new(pb("*", PExp::Val(ib('+', v("i"), num(1.0))), PExp::Dec("t".into())))) }
+            16 => pb("*", PExp::Val(len(IEx::SetFn(r.below(3) as u8, Box::new(v("C")), Box::new(v("A"))))), PExp::Dec("t".into())),
+            // three index levels, each position weighted differently
+            17 => PExp::Scoped(AK::Sum, vec![(one("i"), range(num(0.0), num(2.0), false)), (one("j"), range(num(0.0), num(2.0), false)), (one("l"), range(num(0.0), len(at(at(v("T"), v("i")), v("j"))), false))],
+                      Box::new(pb("*", PExp::Val(ib('*', at(at(at(v("T"), v("i")), v("j")), v("l")), ib('+', ib('*', v("j"), num(3.0)), ib('+', v("l"), num(1.0))))), PExp::Dec("t".into())))),
+            18 => PExp::Scoped(AK::Sum, vec![(one("row"), at(v("T"), num(1.0))), (tup(&["el", "l"]), IEx::Enumerate(Box::new(v("row"))))], Box::new(pb("*", PExp::Val(ib('*', v("el"), ib('+', v("l"), num(1.0)))), PExp::Dec("t".into())))),
             12 => PExp::Scoped(kind_num, vec![(one("t"), range(ib('-', num(0.0), v("n")), v("n"), true))], Box::new(pb("*", PExp::Val(ib('+', v("t"), num(3.0))), comp("r", vec![v("t")])))),
             13 => PExp::Scoped(AK::Sum, vec![(tup(&["a", "i"]), IEx::Enumerate(Box::new(v("A"))))], Box::new(pb("*", PExp::Val(v("a")), pb("-", comp("s", vec![v("i")]), comp("s", vec![ib('-', v("i"), num(1.0))]))))),
             14 => PExp::Scoped(AK::Sum, vec![(one("t"), range(num(-2.0), num(1.0), true))], Box::new(pb("*", PExp::Val(ib('+', v("t"), num(4.0))), comp("neg", vec![v("t")])))),
